@@ -44,7 +44,7 @@ static bool runCase(Rng& r, long ci) {
   bus.derivedResponses = true;
   bus.attach();
   bus.autoSyn = true;
-  if (!bus.enhanced) bus.gluePct = r.pick(std::vector<int>{0, 0, 30, 100});      // a SYN may arrive together with the symbols that follow it
+  bus.gluePct = r.pick(std::vector<int>{0, 0, 30, 100});      // a SYN may arrive together with the symbols that follow it
   Item s; s.kind = Item::SYN;
   for (int i = 0; i < 4; i++) bus.script.push_back(s);
   // some foreign traffic competing for the bus
